@@ -190,7 +190,7 @@ def gen_formula(rng, names, depth, selfname=None):
 
 
 PLAIN = ["a", "b", "c", "d", "e", "f", "g", "h", "i", "j", "k", "l"]
-TRICKY = ["and", "or", "neg", "c", "s", "ac", "imp", "xor", "iff", "v", "andy", "cv", "c1", "negx", "s1",
+TRICKY = ["and", "or", "neg", "c", "s", "ac", "imp", "xor", "iff", "v", "andy", "cv", "c1", "negx", "s1", "true", "false", "negative", "nega",
           "10", "2", "a10", "a2", "A", "Z", "b2", "B", "x9", "x10", "0", "00"]
 QUOTED = ['"a b"', '"x(1)"', '"and(a,b)"', '" "', '"q.r"', '"é"', '"s(a)."', '"1,2"', '""']
 
